@@ -269,7 +269,7 @@ def u_fast_get_nodes(ctx, index):
 
   def havoc(fr):
     fr.gen_out.havoc(h.ip, 'out')
-  h.ip.loops[(FHR + '.get_nodes', 0)] = LoopSpec('for n in xrange(seed, seed + len(self.nodes))', inv, havoc,
+  h.ip.loops[(FHR + '.get_nodes', 0)] = LoopSpec('for n in xrange(seed', inv, havoc,
                                                 locals_modified=['n'])
   key = ctx.fresh(Atom, 'key')
   raised = None
